@@ -403,7 +403,8 @@ impl<'a> CompiledPredicate<'a> {
                 let op_val = self.eval_value(op_expr, row)?;
                 for when_clause in conditions {
                     let when_val = self.eval_value(when_clause.condition, row)?;
-                    if self.values_equal(&op_val, &when_val) {
+                    // `CASE x WHEN y` compares with `=`: NULL matches nothing, not even NULL
+                    if !matches!(op_val, Value::Null) && self.values_equal(&op_val, &when_val) {
                         return self.eval_value(when_clause.result, row);
                     }
                 }
